@@ -468,6 +468,23 @@ func g6One(c *Ctx, mr *mapRange) {
 				continue
 			}
 			for _, in := range b.Instrs {
+				// a module function called from the loop body that reads cells of a class the loop writes per key (e.g. a
+				// walk along links that other iterations set): what it sees depends on which iterations ran before
+				if call, isCall := in.(ssa.CallInstruction); isCall {
+					if _, isB := call.Common().Value.(*ssa.Builtin); !isB {
+						for _, cal := range p.Callees(call) {
+							if !p.fnIndex[cal] {
+								continue
+							}
+							for wc := range perKeyWrites {
+								if p.loadSets()[cal][wc] {
+									problems = append(problems, fmt.Sprintf("%s: calls %s, which reads %s, while the loop writes %s of each key's object: whether the other iterations ran first depends on map order", p.ipos(in), shortName(cal), wc, wc))
+								}
+							}
+						}
+					}
+					continue
+				}
 				ld, ok := in.(*ssa.UnOp)
 				if !ok || ld.Op != token.MUL {
 					continue
